@@ -408,6 +408,38 @@ def _one_per_column_at(prog, f: FuncInfo, c: ast.Call) -> bool:
     return True
 
 
+def _one_per_item_symx(prog, f: FuncInfo, c: ast.Call) -> bool:
+    """the same on the symx event log: the second operand of this zip is a collection that received exactly one element, on every
+    iteration (no condition of its own), of one loop over the first operand - an append loop, a comprehension, tuple() of either"""
+    from ..sites2 import interp_of, strip_seq
+    from ..symx import elements
+    if len(c.args) != 2:
+        return False
+    it = interp_of(prog, f)
+    for lp in it.loops.values():
+        n_ = lp.node
+        if not (getattr(n_, "iter", None) is c or any(g.iter is c for g in getattr(n_, "generators", []))):
+            continue
+        dom = lp.domain if lp.domain is not None else None
+        if dom is None or dom[0] != "tuple" or len(dom[1]) != 2:
+            continue
+        first, second = dom[1]
+        coll = strip_seq(it, second)
+        if coll[0] != "obj":
+            continue
+        try:
+            els = elements(it, coll)
+        except Exception:
+            return False
+        if len(els) != 1 or not els[0].loops:
+            continue
+        src = it.loops[els[0].loops[-1]]
+        if src.iter == first and tuple(els[0].conds) == tuple(src.conds) and len(els[0].loops) == len(src.parents) + 1 \
+                and not src.breaks and not src.returns:
+            return True
+    return False
+
+
 def _zips(ctx) -> None:
     prog = ctx.prog
     other = 0
@@ -433,7 +465,7 @@ def _zips(ctx) -> None:
                 ok, why = True, "dominated by a raising length comparison"
             elif (q, args) in ZIP_WHITELIST:
                 ok, why = True, "table: " + ZIP_WHITELIST[(q, args)]
-            elif _one_per_column_at(prog, f, c):
+            elif _one_per_column_at(prog, f, c) or _one_per_item_symx(prog, f, c):
                 ok, why = True, "second operand is built one per column of the first"
             ctx.ob("b.no-truncation", f, f"zip:{k}:{args}", ok, f"zip({args}): {why}", c,
                    message=f"{q}: zip({args}) silently truncates to the shorter operand: it is neither strict=True nor preceded by a "
